@@ -59,10 +59,23 @@ func run(c dcase) string {
 		if err != nil {
 			return
 		}
+		// the time handed in is the ticker's: evenly spaced, or late, or with ticks lost while
+		// the ticking goroutine was busy; the distribution counts calls, not time
 		now := time.Unix(1700000000, 0)
+		gaps := uint64(c.interval)*2654435761 + uint64(c.calls)
 		for i := 0; i < c.calls; i++ {
 			outs = append(outs, int64(fn(now)))
-			now = now.Add(iv)
+			gaps = gaps*6364136223846793005 + 1442695040888963407
+			switch (gaps >> 33) % 8 {
+			case 0:
+				now = now.Add(2 * iv) // one tick lost
+			case 1:
+				now = now.Add(iv + iv/3) // late
+			case 2:
+				now = now.Add(5 * iv) // a stall
+			default:
+				now = now.Add(iv)
+			}
 		}
 	})
 	return kit.Res(crashed, err, kit.List(kit.I(int64(iv)), kit.Ints(outs), kit.I(evals)))
